@@ -54,6 +54,20 @@ def run(C, R):
                         if method_role(F, fn)[0] != 'send':
                             R.fail('C13.R1', [fn['path'], 'id-write-outside-send'],
                                    'state_id is written in %s' % fn['path'], F.loc(fn, s['ln']))
+        # ... and the stores made through a method of the id type itself (`self.state_id.advance()`), seen as write
+        # events on the paths of the transitions
+        from rl import entry_methods as _em13
+        for m_ in _em13(F, C.cg(cfg), STATE):
+            wrote = False
+            for path in E.run(m_['path']):
+                if any(e['k'] in ('write', 'replace') and e.get('loc') and e['loc'][:1] == (('P', 'self'),)
+                       and fields_of(e['loc'])[:1] == ('state_id',) for e in path.events):
+                    wrote = True
+            if wrote:
+                nw += 1
+                if method_role(F, m_)[0] != 'send':
+                    R.fail('C13.R1', [m_['path'], 'id-write-outside-send'],
+                           'state_id is written on a path of %s' % m_['path'], '%s:%s' % (m_['file'], m_['line']))
         R.floor('C13.R1 id-write-sites[%s]' % cfg, nw, 1)
         send = F.one_fn(impl_adt=STATE, name='send')
         paths = E.run(send['path'])
